@@ -37,7 +37,19 @@ def constructors(res, prog):
                 facts = [r for r, g, s in panics.dominating_facts(f, b)]
                 ok = False
                 why = ''
-                if a1[0] == 'bin' and a1[1] == 'Sub' and a1[3] == ('int', 1):
+                u0 = a1
+                if u0[0] == 'vfield' and u0[1] in ('Continue', 'Some'):
+                    u0 = u0[3][1] if u0[3][0] == 'trybranch' else u0[3]
+                if is_call(u0, 'checked_add') and strip_casts(u0[2]) == strip_casts(a0) and strip_casts(u0[3])[0] == 'bin' and strip_casts(u0[3])[1] == 'Sub' and strip_casts(u0[3])[3] == ('int', 1):
+                    # end = checked_add(base, size - 1)?: the last byte, which may be the last byte of the address space
+                    size = strip_casts(strip_casts(u0[3])[2])
+                    nz = any((r[0] == 'ne' and strip_casts(f.expand(r[1])) == size and r[2] == ('int', 0)) for r in facts)
+                    if nz:
+                        ok = True
+                        why = 'size != 0, end = checked_add(base, size - 1)?'
+                    else:
+                        why = 'no `size == 0 => None` guard for %s' % show(size)
+                elif a1[0] == 'bin' and a1[1] == 'Sub' and a1[3] == ('int', 1):
                     inner = a1[2]
                     u = inner
                     if u[0] == 'vfield' and u[1] in ('Continue', 'Some'):
@@ -45,7 +57,9 @@ def constructors(res, prog):
                     if is_call(u, 'checked_add') and strip_casts(u[2]) == strip_casts(a0):
                         size = strip_casts(u[3])
                         nz = any((r[0] == 'ne' and strip_casts(f.expand(r[1])) == size and r[2] == ('int', 0)) for r in facts)
-                        if nz:
+                        if nz and not re.search(r'^minidump::minidump::Minidump(Unloaded)?Module::memory_range$', f.path):
+                            why = 'end = checked_add(base, size)? - 1 overflows for an entry whose last byte is the last byte of the address space (base + size == 2^64): the entry is silently dropped; use checked_add(base, size - 1)? (only the two module constructors keep this form: a module\'s exclusive end base + size is part of the report, `end_addr`, so the readers reject modules for which it is not representable)'
+                        elif nz:
                             ok = True
                             why = 'size != 0, end = checked_add(base, size)? - 1'
                         else:
@@ -311,6 +325,48 @@ def win_prefilter(res, prog):
                     res.violation('C08.7', 'C08.7|one-sided|%s' % cnd[:80], f, t.get('line'), 'the pre-filter compares the two ranges with %s: on unsorted input only the symmetric Range::intersects is an overlap test' % cnd[:160])
 
 
+def list_never_fails(res, prog):
+    """C08.9: one bad entry does not lose the table.  In the two module-list readers the bad-size test leads back into the
+    loop (the entry is skipped); no `return Err(..)` is governed by a test on an entry's own base / size."""
+    res.rule('C08.9', 0, floor=2, note='module-list readers skip an entry with a bad image size; they do not fail the whole list on it')
+    c = prog.crate('minidump')
+    for path in ("<minidump::MinidumpModuleList as minidump::MinidumpStream<'a>>::read", "<minidump::MinidumpUnloadedModuleList as minidump::MinidumpStream<'a>>::read"):
+        f = need_fn(res, c, path, 'C08.9')
+        if f is None:
+            continue
+        res.rule('C08.9', 1)
+        for (b, i, tr) in ret_assigns(f):
+            v = show(f.expand(tr))
+            if not v.startswith('(adt std::result::Result::Err'):
+                continue
+            facts = [r for r, g, sx in panics.dominating_facts(f, b)]
+            bad = [r for r in facts if len(r) > 1 and ('raw.size_of_image' in show(r[1]) or (len(r) > 2 and isinstance(r[2], tuple) and 'raw.size_of_image' in show(r[2])))]
+            if bad:
+                res.violation('C08.9', 'C08.9|%s' % path, f, f.blocks[b]['s'][i].get('line') if isinstance(i, int) and i < len(f.blocks[b]['s']) else f.line,
+                              'the reader returns %s because of one entry\'s image size: every other entry of the list is lost with it' % v[:80])
+
+
+def linux_maps_end(res, prog):
+    """C08.8: the range of a /proc/<pid>/maps line.  procfs-core keeps the two numbers of `start-end` as they are, and
+    the end of a maps line is exclusive (the next mapping usually starts there); Range is inclusive, so the range is
+    start ..= end - 1 and a line with start >= end has none."""
+    res.rule('C08.8', 0, floor=1, note='MinidumpLinuxMapInfo::memory_range = address.0 ..= address.1 - 1 (the end of a maps line is exclusive)')
+    c = prog.crate('minidump')
+    fs = [f for f in c.fns if re.search(r"MinidumpLinuxMapInfo::<'.*>::memory_range$|MinidumpLinuxMapInfo::memory_range$", f.path)]
+    if len(fs) != 1:
+        res.error('C08.8', 'MinidumpLinuxMapInfo::memory_range not found')
+        return
+    f = fs[0]
+    for b, t in f.calls():
+        if f.callee(t) != 'range_map::Range::new':
+            continue
+        res.rule('C08.8', 1)
+        a0 = show(f.expand(f.operand_tree(t['args'][0])))
+        a1 = show(f.expand(f.operand_tree(t['args'][1])))
+        if not (a0.endswith('map.address.0') and re.match(r'^\(Sub \S*map\.address\.1 1\)$', a1)):
+            res.violation('C08.8', 'C08.8|linux-maps-end', f, t.get('line'), 'the range of a maps line is %s ..= %s: its exclusive end address is taken as the last byte, so the mapping that starts there overlaps it and is dropped from the lookup table, and the end address itself resolves to the wrong mapping' % (a0, a1))
+
+
 def run(tier, t0):
     res = harness.Result(PID)
     prog = program()
@@ -321,6 +377,8 @@ def run(tier, t0):
     unloaded(res, prog)
     bad_modules(res, prog)
     win_prefilter(res, prog)
+    list_never_fails(res, prog)
+    linux_maps_end(res, prog)
     res.assumptions += [
         'range_map::RangeMap::get returns an entry containing the key and try_from_iter fails only on overlapping input (trusted crate)',
         'the builder\'s loop invariant (sorted, non-overlapping output for every input sequence) is argued from its skeleton, not verified inductively',
